@@ -198,7 +198,7 @@ ALTS = {
     "fixed": list(FIXED_FORMS),
     "value": [f for f in VALUE_FORMS if f != "arr-lit"],
     "output": [True],
-    "eq": ["elem", "rows", "loop", "init", "none"],
+    "eq": ["elem", "rows", "loop", "init", "none", "const", "zero", "alias", "negalias", "revalias"],
     "der": ["elem", "loop", "init", "first"],
     "delay": ["whole", "loop", "elem"],
     "integer": [True],
@@ -249,6 +249,8 @@ def valid(spec):
         return False  # a slice needs >= 2 elements; slices over a component array (c[1:2].x) are not supported
     if spec["delay"] is not None and spec["integer"]:
         return False
+    if spec["eq"] in ("const", "zero") and kind != "alg":
+        return False  # an equation `x = <constant>` next to der(x) / on an input / parameter / constant is not a model
     return True
 
 
@@ -360,7 +362,8 @@ def build(spec):
     decls = ["parameter Real p = 2;"] + x_decls
     table["p"] = ([("p", ())], False, ())
     decls.append("Real w%s;" % dimtxt(D))
-    table["w"] = ([("w", D)], False, ())
+    # (with `x = w` alias detection hands x's attributes to w: they span what they span on x)
+    table["w"] = ([("w", D)], False, tuple(sorted(lead)), leaf) if spec["eq"] == "revalias" else ([("w", D)], False, ())
 
     eqs, init = [], []
     idxs = list(np.ndindex(*D))
@@ -368,8 +371,23 @@ def build(spec):
     W = [("w", D)]
     two = len(D) == 2
     e = spec["eq"]
-    if e in ("whole", "init"):
+    if e in ("whole", "init", "const", "zero"):
         eqs.append("w = 2 * %s;" % X)
+    if e == "const":
+        # the whole array assigned a constant: a literal with distinct entries (1-D; the unexpanded backend rejects a
+        # nested literal in an equation) or fill()
+        if len(D) == 1:
+            eqs.append("%s = %s;" % (X, lit(D, 1.5, 1.0, _ifmt(integer))))
+        else:
+            eqs.append("%s = fill(%s, %s);" % (X, "2" if integer else "1.5", ", ".join(map(str, D))))
+    if e == "zero":
+        eqs.append("%s = fill(%s, %s);" % (X, "0" if integer else "0.0", ", ".join(map(str, D))))
+    if e == "alias":
+        eqs.append("w = %s;" % X)
+    if e == "negalias":
+        eqs.append("w = -%s;" % X)
+    if e == "revalias":
+        eqs.append("%s = w;" % X)
     if e == "init":
         init.append("w = 3 * %s;" % X)
         init.append("%s = %s;" % (elem_ref(W, idxs[-1]), elem_ref(path, idxs[0])))
@@ -487,7 +505,7 @@ def numeric(model, val, pvals):
         vs = list(model.parameters) + list(model.constants)
         try:
             f = ca.Function("attr", [v.symbol for v in vs], [val])
-            r = f(*[ca.DM(np.asarray(pvals[v.symbol.name()], dtype=float).reshape(v.symbol.shape)) for v in vs])
+            r = f.call([ca.DM(np.asarray(pvals[v.symbol.name()], dtype=float).reshape(v.symbol.shape)) for v in vs])[0]
         except Exception as e:
             raise Unreadable("%s: %s" % (type(e).__name__, str(e).split("\n")[0][:200]))
         return np.array(ca.DM(r))
@@ -567,7 +585,8 @@ def expectation(mu, table):
                 for idx in np.ndindex(*shape):
                     out.append((delay_names(name, shape, idx), name, idx, shape, shape, True))
                 continue
-            path, is_der, _ = table[name]  # KeyError = the harness does not know its own program
+            path, is_der = table[name][:2]  # KeyError = the harness does not know its own program
+            attr_leaf = table[name][3] if len(table[name]) > 3 else path[-1][1]
             D = full_dims(path)
             want_shape = (1, 1) if not D else ((D[0], 1) if len(D) == 1 else D)
             if shape != want_shape:
@@ -577,13 +596,14 @@ def expectation(mu, table):
                 out.append(({name}, name, (), (), (), False))
             else:
                 for idx in np.ndindex(*D):
-                    out.append(({elem_ref(path, idx, pre, post)}, name, idx, D, path[-1][1], False))
+                    out.append(({elem_ref(path, idx, pre, post)}, name, idx, D, attr_leaf, False))
         exp[g] = out
     return exp
 
 
-def compare(mu, me, table, seed, npoints):
-    """List of (clause, detail) where the expanded model `me` is not the renamed unexpanded model `mu`."""
+def compare(mu, me, table, seed, npoints, order=True):
+    """List of (clause, detail) where the expanded model `me` is not the renamed unexpanded model `mu` (both generated
+    with the same other options).  `order`: demand the in-place row-major order inside the groups."""
     import casadi as ca
 
     bad = []
@@ -602,7 +622,7 @@ def compare(mu, me, table, seed, npoints):
             names_ok = False
             bad.append(("names:" + g, "%s of the expanded model are %r; the unexpanded %r renamed are %r" % (g, got, [v.symbol.name() for v in getattr(mu, g)], [sorted(a)[0] for a, *_ in want])))
             continue
-        if not all(n in acc for n, (acc, *_) in zip(got, want)):
+        if order and not all(n in acc for n, (acc, *_) in zip(got, want)):
             bad.append(("order:" + g, "%s of the expanded model are ordered %r; in place and row-major they are %r" % (g, got, [sorted(a)[0] for a, *_ in want])))
         for acc, uname, idx, D, leaf, isd in want:
             rename[(uname, idx)] = next(n for n in got if n in acc)
@@ -664,14 +684,25 @@ def compare(mu, me, table, seed, npoints):
                         bad.append(("attribute-element:" + a, "%s of %s is %r; element %r of %s.%s = %r is %r" % (a, ename, e, tuple(i + 1 for i in idx), uname, a, _short(uval), want)))
                         break
 
-    # -- outputs
-    want_out = []
+    # -- outputs: an output that is a variable of the unexpanded model (in whatever group the other options left it) is
+    # renamed like the variable; an output whose variable the other options removed from the model altogether names
+    # nothing in either model and is not judged (array name and scalar names both accepted)
+    want_out, free = [], set()
     for n in mu.outputs:
-        path, is_der, _ = table[n]
+        path = table[n][0]
         D = full_dims(path)
-        want_out += [elem_ref(path, idx) for idx in np.ndindex(*D)] if D else [n]
-    if sorted(me.outputs) != sorted(want_out):
+        scal = [elem_ref(path, idx) for idx in np.ndindex(*D)] if D else [n]
+        if n in uvars:
+            want_out += scal
+        else:
+            free.update(scal + [n])
+    got_out = [n for n in me.outputs if n not in free]
+    if sorted(got_out) != sorted(want_out):
         bad.append(("outputs", "outputs %r; the unexpanded outputs %r renamed are %r" % (list(me.outputs), list(mu.outputs), want_out)))
+    else:
+        stale = [n for n in got_out if n not in evars]
+        if stale:
+            bad.append(("outputs", "outputs %r are not variables of the expanded model" % stale))
 
     # -- delay states
     dwant = sorted(rename[(uname, idx)] for g in GROUPS for acc, uname, idx, D, leaf, isd in exp[g] if isd)
@@ -734,37 +765,197 @@ def _short(v):
     return s if len(s) < 120 else s[:117] + "..."
 
 
+# ---- the other simplification options ----------------------------------------------------------------------------------
+# The statement speaks of expand_vectors, not of expand_vectors in isolation: the same comparison (same options, expansion
+# off vs on) is made under every other switch of Model.simplify that moves variables between the groups, removes them or
+# rewrites their metadata -- before the expansion when it runs late (expand_mx off), after it when it runs first
+# (expand_mx on).  A switch is applied to its *family*: the programs on which it acts (`relevant`) and acts on whole
+# arrays (`sound`) -- a pass that pattern-matches single equations may legitimately do more on the scalar equations of
+# an early expansion than on the array equations of the unexpanded model (pymoca expands first "to detect more
+# aliases"), and then the expanded model is not a renaming of the unexpanded one and nothing can be demanded.
+
+P_FORMS = ("each-p", "mx-arr", "param-arr", "list-mx", "each-k", "mod-each-p")  # attribute depends on a parameter
+ALIAS_EQS = ("alias", "negalias", "revalias")
+CONST_EQS = ("const", "zero")
+EVE_REGEX = r".*\bx\b"  # the subject variable under any path (match() anchors at the start of the name)
+
+
+def _p_attr(spec):
+    return any(spec[a] in P_FORMS for a in ("start", "min", "max", "nominal"))
+
+
+def _whole_array_equations(spec):
+    # equations between single elements (`w[1] = 1 * x[1]` of the for-loop, `w[n] = x[1]` of the slices form, the scalar
+    # delay states of a delay inside a for-loop) are aliases / assignments only after expansion
+    return spec["eq"] not in ("loop", "rows") and spec["delay"] != "loop"
+
+
+def _in_component_array(spec):
+    path = SHAPES[spec["shape"]]
+    return len(path) > 1 and bool(path[-1][1]) and any(d for _, d in path[:-1])
+
+
+def _value_keeps_symbol_shape(spec, kinds):
+    """False when a parameter / constant array declared inside a component array has an array value: the value then spans
+    only the inner dimensions, and replace_*_values / resolve_parameter_values substitute it as it is for the whole
+    (outer x inner) symbol -- the *unexpanded* model under these options pairs elements and values wrongly
+    (c[2].x[1] gets the value of x[2]), so it is no reference.  (Reported; simplification's ground, not expansion's.)"""
+    if not _in_component_array(spec):
+        return True
+    if spec["kind"] in kinds and spec["value"] in ("arr-lit", "dm-fill", "dm-scaled"):
+        return False
+    if "parameter" in kinds and any(spec[a] == "param-arr" for a in ("start", "min", "max", "nominal")):
+        return False  # the helper parameter q declared next to x is such an array
+    return True
+
+
+CONTEXTS = {
+    # name (= the option): (options, relevant, sound, broad)
+    "eliminate_constant_assignments": (
+        {"eliminate_constant_assignments": True},
+        lambda s: s["kind"] == "alg" and s["eq"] in CONST_EQS,  # x moves from alg_states to constants
+        lambda s: True,  # no other program has an equation `variable = constant`, expanded or not
+        False,
+    ),
+    "replace_constant_values": (
+        {"replace_constant_values": True},
+        lambda s: s["kind"] == "constant",  # x is substituted by its value and leaves the model
+        lambda s: _value_keeps_symbol_shape(s, ("constant",)),
+        True,
+    ),
+    "replace_parameter_values": (
+        {"replace_parameter_values": True},
+        # x (numeric value) is substituted and leaves the model / p, q, k leave it and the attributes, the delay durations
+        # and the values that mention them are rewritten
+        lambda s: s["kind"] == "parameter" or _p_attr(s) or s["delay"] is not None or (s["kind"] == "constant" and s["value"] == "mx-arr"),
+        lambda s: _value_keeps_symbol_shape(s, ("parameter",)),
+        True,
+    ),
+    "replace_parameter_expressions": (
+        {"replace_parameter_expressions": True},
+        lambda s: s["kind"] == "parameter" and s["value"] == "mx-arr",  # x = p * {..} is substituted and leaves the model
+        lambda s: True,
+        False,
+    ),
+    "replace_constant_expressions": (
+        {"replace_constant_expressions": True},
+        lambda s: s["kind"] == "constant" and s["value"] == "mx-arr",
+        lambda s: True,
+        False,
+    ),
+    "resolve_parameter_values": (
+        {"resolve_parameter_values": True},
+        lambda s: _p_attr(s),  # metadata only: attribute expressions are rewritten to numbers
+        # (a python list of expressions `{1.75 * p, 2.75 * p}` is not rewritten in the unexpanded model, only its scalars
+        # in the expanded one are: equal at the declared value of p only, and the grid moves p)
+        lambda s: _value_keeps_symbol_shape(s, ("parameter",)) and not any(s[a] == "list-mx" for a in ("start", "min", "max", "nominal")),
+        True,
+    ),
+    "detect_aliases": (
+        {"detect_aliases": True},
+        # w = x / w = -x: w leaves the model; x = w: x leaves it and hands its attributes to w; z = delay(..): z is an alias
+        # of the delay state
+        lambda s: s["eq"] in ALIAS_EQS or s["delay"] in ("whole", "elem"),
+        _whole_array_equations,
+        False,
+    ),
+    "eliminable_variable_expression": (
+        {"eliminable_variable_expression": EVE_REGEX},  # (pymoca demands expand_mx with it)
+        # x = <constant> / x = w / w = (-)x: x is substituted and leaves the model
+        lambda s: s["kind"] == "alg" and s["eq"] in CONST_EQS + ALIAS_EQS,
+        # (a state would be eliminated through its derivative equation; element equations as above)
+        lambda s: s["kind"] != "state" and _whole_array_equations(s),
+        False,
+    ),
+}
+CONTEXT_ORDER = tuple(CONTEXTS)
+
+
+def in_family(ctx, spec):
+    """ctx: tuple of context names (() = default options).  The program is in the family of the combination when every
+    switch is sound on it and at least one acts on it."""
+    if not ctx:
+        return True
+    return all(CONTEXTS[c][2](spec) for c in ctx) and any(CONTEXTS[c][1](spec) for c in ctx)
+
+
+def ctx_options(ctx):
+    o = {}
+    for c in ctx:
+        o.update(CONTEXTS[c][0])
+    return o
+
+
+def ctx_modes(ctx):
+    return (True,) if "eliminable_variable_expression" in ctx else (False, True)
+
+
 # ---- one program ------------------------------------------------------------------------------------------------------
 
 UNEXPANDED = {"expand_vectors": False}
 
 
-def evaluate(spec, seed, npoints):
+def _ready(m):
+    m.dae_residual_function
+    m.initial_residual_function
+    if m.delay_states:
+        m.delay_arguments_function
+
+
+def fingerprint(m):
+    """What the other options can change in a model, as text (to measure whether a context acted on a program)."""
+    return (
+        tuple((g, tuple((v.symbol.name(), tuple(str(getattr(v, a)) for a in ATTRS)) for v in getattr(m, g))) for g in GROUPS),
+        tuple(str(e) for e in m.equations),
+        tuple(str(e) for e in m.initial_equations),
+        tuple(str(d.expr) + "@" + str(d.duration) for d in m.delay_arguments),
+    )
+
+
+def evaluate(spec, seed, npoints, ctx=()):
     """status 'unsupported' (the unexpanded backend rejects the program: not judged) or 'judged' with the failing
-    clauses [(clause, expand_mx, detail)]."""
+    clauses [(clause, expand_mx, detail)].  ctx: names of the other simplification options switched on (in both the
+    unexpanded and the expanded generation)."""
     text, table, n_el = build(spec)
+    ctx = tuple(ctx)
+    opts = ctx_options(ctx)
+    out = {"status": "judged", "text": text, "clauses": [], "arrays": 0, "delays": 0, "acted": False}
     try:
         blob = parse_blob(text)
-        mu = generate(blob, UNEXPANDED)
-        mu.dae_residual_function
-        mu.initial_residual_function
-        if mu.delay_states:
-            mu.delay_arguments_function
+        mu0 = generate(blob, UNEXPANDED)
+        _ready(mu0)
     except Exception as e:
         return {"status": "unsupported", "why": common.exc_sig(e), "text": text, "clauses": [], "arrays": 0}
-    arrays = sum(1 for g in GROUPS for v in getattr(mu, g) if v.symbol.shape[0] * v.symbol.shape[1] >= 2)
-    clauses = []
-    for mx in (False, True):
-        # a fresh unexpanded model per mode is not needed: nothing below mutates mu
+    arrays = sum(1 for g in GROUPS for v in getattr(mu0, g) if v.symbol.shape[0] * v.symbol.shape[1] >= 2)
+    out["arrays"], out["delays"] = arrays, len(mu0.delay_states)
+    clauses = out["clauses"]
+    for mx in ctx_modes(ctx):
+        if ctx:
+            # the reference is the unexpanded model under the same options
+            try:
+                mu = generate(blob, dict(opts, expand_vectors=False, expand_mx=mx))
+                _ready(mu)
+            except Exception as e:
+                out.setdefault("unsupported_modes", []).append((mx, common.exc_sig(e)))
+                continue
+            if not out["acted"] and fingerprint(mu) != fingerprint(mu0):
+                out["acted"] = True
+        else:
+            mu = mu0  # (nothing below mutates it)
         try:
-            me = generate(blob, {"expand_vectors": True, "expand_mx": mx})
+            me = generate(blob, dict(opts, expand_vectors=True, expand_mx=mx))
         except Exception as e:
             clauses.append(("expansion-raises", mx, "%s: %s [%s]" % (type(e).__name__, str(e).split("\n")[0][:200], common.exc_sig(e))))
             continue
-        bad = compare(mu, me, table, seed, npoints)
+        # In-place row-major order inside the groups is what the expansion does to the groups it finds.  When it runs
+        # first (expand_mx) and another switch then moves scalars between groups it moves them in equation order
+        # (column-major inside a matrix equation), which nothing pins: order is then not demanded.
+        bad = compare(mu, me, table, seed, npoints, order=not (ctx and mx))
         for clause, detail in bad:
             clauses.append((clause, mx, detail))
-    return {"status": "judged", "text": text, "clauses": clauses, "arrays": arrays, "delays": len(mu.delay_states)}
+    if len(out.get("unsupported_modes", ())) == len(ctx_modes(ctx)):
+        out["status"], out["why"] = "unsupported", out["unsupported_modes"][0][1]
+    return out
 
 
 def deviations(spec):
@@ -813,14 +1004,15 @@ KNOWN_TRIGGERS = (
 )
 
 
-def minimal(spec, clause, seed, npoints):
-    """Smallest sub-program (subset of the deviations, then kind alg if possible) on which `clause` still fails."""
+def minimal(spec, clause, seed, npoints, ctx=()):
+    """Smallest sub-program (subset of the deviations, then kind alg if possible) in the family of the same options on
+    which `clause` still fails."""
     devs = deviations(spec)
 
     def fails(s):
-        if not valid(s):
+        if not valid(s) or not in_family(ctx, s):
             return False
-        r = evaluate(s, seed, npoints)
+        r = evaluate(s, seed, npoints, ctx)
         return any(c == clause for c, _, _ in r["clauses"])
 
     for k in range(len(devs) + 1):
@@ -832,33 +1024,41 @@ def minimal(spec, clause, seed, npoints):
     return spec
 
 
-def check(job):
-    spec, seed, npoints = job
-    r = evaluate(spec, seed, npoints)
-    out = {"text": r["text"], "status": r["status"], "why": r.get("why"), "arrays": r["arrays"], "delays": r.get("delays", 0), "viol": []}
+def check_one(spec, seed, npoints, ctx):
+    r = evaluate(spec, seed, npoints, ctx)
+    out = {"ctx": ctx, "status": r["status"], "why": r.get("why"), "acted": r.get("acted", False), "viol": []}
+    out["text"], out["arrays"], out["delays"] = r["text"], r["arrays"], r.get("delays", 0)
     by = {}
     for clause, mx, detail in r["clauses"]:
         by.setdefault(clause, []).append((mx, detail))
+    allmodes = list(ctx_modes(ctx))
     for clause, hits in by.items():
         modes = sorted({mx for mx, _ in hits})
         sig = None
-        m = minimal(spec, clause, seed, npoints)
+        m = minimal(spec, clause, seed, npoints, ctx)
         if clause == "expansion-raises":
             # known defect families: the smallest failing sub-program carries the trigger and stops raising when exactly
-            # the trigger features are removed
+            # the trigger features are removed (same options)
             for name, trigger in KNOWN_TRIGGERS:
                 removed = trigger(m)
-                if removed is not None and all("expansion-raises" != c for c, _, _ in evaluate(removed, seed, npoints)["clauses"]):
+                if removed is not None and all("expansion-raises" != c for c, _, _ in evaluate(removed, seed, npoints, ctx)["clauses"]):
                     sig = "expansion-raises:" + name
                     break
         if sig is None:
             feats = ["%s=%s" % kv for kv in deviations(m)] or ["base"]
             sig = "%s:%s:%s" % (clause, m["kind"], "+".join(feats))
-            if modes != [False, True]:
+            if ctx:
+                sig += ":with=" + "+".join(ctx)
+            if modes != allmodes:
                 sig += ":expand_mx-only" if modes == [True] else ":no-expand_mx-only"
-        msg = "%s (expand_mx %s): %s\n%s" % (clause, "/".join("on" if m_ else "off" for m_ in modes), hits[0][1], r["text"])
-        out["viol"].append((sig, msg, {"spec": spec, "text": r["text"], "clause": clause}))
+        msg = "%s (%sexpand_mx %s): %s\n%s" % (clause, "options %s, " % ", ".join(ctx) if ctx else "", "/".join("on" if m_ else "off" for m_ in modes), hits[0][1], r["text"])
+        out["viol"].append((sig, msg, {"spec": spec, "text": r["text"], "clause": clause, "ctx": list(ctx)}))
     return out
+
+
+def check(job):
+    spec, seed, npoints, ctxs = job
+    return [check_one(spec, seed, npoints, tuple(c)) for c in ctxs]
 
 
 def programs(tier):
@@ -875,41 +1075,84 @@ def programs(tier):
     return out, K
 
 
+def contexts(tier):
+    """[(ctx, deviation bound)]: the default options at K; every single other switch at K (K - 1 for the switches that
+    act on every parameter / constant of every program: `broad`); in the thorough tier also every pair of switches, one
+    deviation lower."""
+    K = 2 if tier == "quick" else 3
+    out = [((), K)]
+    for c in CONTEXT_ORDER:
+        out.append(((c,), K - 1 if CONTEXTS[c][3] else K))
+    if tier != "quick":
+        for c1, c2 in itertools.combinations(CONTEXT_ORDER, 2):
+            out.append(((c1, c2), K - 2 if CONTEXTS[c1][3] or CONTEXTS[c2][3] else K - 1))
+    return out
+
+
+def jobs_for(tier):
+    specs, K = programs(tier)
+    plan = contexts(tier)
+    jobs = []
+    for s in specs:
+        nd = len(deviations(s))
+        ctxs = [c for c, bound in plan if nd <= bound and in_family(c, s)]
+        jobs.append((s, ctxs))
+    return jobs, K, plan
+
+
 def run(ctx):
-    specs, K = programs(ctx.tier)
-    rot = ctx.seed % max(1, len(specs))
-    specs = specs[rot:] + specs[:rot]
+    jobs, K, plan = jobs_for(ctx.tier)
+    rot = ctx.seed % max(1, len(jobs))
+    jobs = jobs[rot:] + jobs[:rot]
     npoints = 2
     with common.Pool() as pool:
-        res = pool.map(check, [(s, ctx.seed, npoints) for s in specs], chunksize=8)
+        res = pool.map(check, [(s, ctx.seed, npoints, cs) for s, cs in jobs], chunksize=8)
     texts, nontrivial, unsupported = set(), set(), {}
     judged = evals = delays = 0
-    for s, r in zip(specs, res):
-        texts.add(r["text"])
-        if r["status"] == "unsupported":
-            unsupported[r["why"]] = unsupported.get(r["why"], 0) + 1
-            continue
-        judged += 1
-        evals += 2 * npoints
-        if r["arrays"]:
-            nontrivial.add(r["text"])
-        if r["delays"]:
-            delays += 1
-        for sig, msg, case in r["viol"]:
-            ctx.violation(sig, msg, case)
-    order = sorted(range(len(specs)), key=lambda i: res[i]["text"])
+    per = {}
+    for (s, cs), rs in zip(jobs, res):
+        for r in rs:
+            c = "+".join(r["ctx"]) or "default"
+            d = per.setdefault(c, {"programs": 0, "judged": 0, "options_acted_on_unexpanded_model": 0, "unsupported": 0})
+            d["programs"] += 1
+            if not r["ctx"]:
+                texts.add(r["text"])
+            if r["status"] == "unsupported":
+                key = ("" if not r["ctx"] else c + ": ") + str(r["why"])
+                unsupported[key] = unsupported.get(key, 0) + 1
+                d["unsupported"] += 1
+                continue
+            d["judged"] += 1
+            judged += 1
+            evals += len(ctx_modes(r["ctx"])) * npoints
+            if r["ctx"]:
+                if r["acted"]:
+                    d["options_acted_on_unexpanded_model"] += 1
+                    if r["arrays"]:
+                        nontrivial.add((c, r["text"]))
+            else:
+                if r["arrays"]:
+                    nontrivial.add((c, r["text"]))
+                if r["delays"]:
+                    delays += 1
+            for sig, msg, case in r["viol"]:
+                ctx.violation(sig, msg, case)
+    order = sorted(range(len(jobs)), key=lambda i: res[i][0]["text"])
     for i in (order[0], order[len(order) // 2], order[-1]):
-        ctx.sample({"spec": specs[i], "model": res[i]["text"]})
+        ctx.sample({"spec": jobs[i][0], "options": [list(c) for c in jobs[i][1]], "model": res[i][0]["text"]})
     ctx.coverage.update(
         {
             "evaluations": evals,
-            "programs": len(specs),
+            "programs": len(jobs),
             "distinct_programs": len(texts),
+            "program_option_combinations": sum(d["programs"] for d in per.values()),
             "judged": judged,
             "distinct_nontrivial": len(nontrivial),
             "unsupported_by_unexpanded_backend": unsupported,
             "programs_with_delay_states": delays,
             "max_deviations": K,
+            "per_option_set": per,
+            "option_sets": ["+".join(c) or "default" for c, _ in plan],
             "grid_points": npoints,
             "exhaustive": True,
             "rule": "every program within <= %d deviations from the base program (x[2], no attributes, `w = 2 * x`) of each "
@@ -917,29 +1160,44 @@ def run(ctx):
             "to 2x3, component arrays holding scalars / arrays, arrays inside scalar components, two-level nesting), "
             "start/min/max/nominal (each literal, array literal, fill() DM, scaled-literal DM, each parameter expression, "
             "parameter * literal MX, array parameter, list of MX, component-level modification full / each), fixed, value "
-            "form, output, equation form (whole / per element / rows+slices / for-loop / initial / none), der form (whole / "
-            "per element / for-loop / initial / first element), delay (whole array / in for-loop / element), Integer, "
-            "neighbours; each generated unexpanded and expanded with expand_mx off and on and compared clause by clause "
-            "at %d grid points per mode. Non-trivial = the unexpanded backend accepts the program and its model has an "
-            "array variable with >= 2 elements (a renaming that can go wrong)." % (K, len(SHAPES), npoints),
+            "form, output, equation form (whole / per element / rows+slices / for-loop / initial / none / x assigned a constant "
+            "array / x assigned zeros / w = x / w = -x / x = w), der form (whole / per element / for-loop / initial / first "
+            "element), delay (whole array / in for-loop / element), Integer, neighbours; each generated unexpanded and expanded "
+            "with expand_mx off and on and compared clause by clause at %d grid points per mode.  The same comparison (same "
+            "options, expand_vectors off vs on) under each single other simplification switch (%s) on the switch's family "
+            "(programs on which it acts, and acts on whole arrays) within <= %d deviations (%d for the switches that act on "
+            "every parameter / constant)%s.  Non-trivial = the unexpanded backend accepts the program, its model has an array "
+            "variable with >= 2 elements (a renaming that can go wrong) and, for a non-default option set, the options "
+            "measurably change the unexpanded model (groups, attributes, equations or delay arguments differ from the "
+            "default-options model)."
+            % (K, len(SHAPES), npoints, ", ".join(CONTEXT_ORDER), K, K - 1, "" if ctx.tier == "quick" else "; every pair of switches within <= %d (%d) deviations" % (K - 1, K - 2)),
         }
     )
     ctx.assumptions += [
-        "the unexpanded model is the reference for groups, attribute values and residuals; only the renaming (names, element "
-        "correspondence) comes from the check's own namer over the declared paths",
+        "the unexpanded model generated with the same other options is the reference for groups, attribute values and residuals; "
+        "only the renaming (names, element correspondence) comes from the check's own namer over the declared paths",
         "programs the unexpanded backend rejects are not judged (counted under unsupported_by_unexpanded_backend)",
         "delay states are internal variables without a Modelica shape: N[i] and N[i,1] (and N for a single element) are "
         "accepted for element i of an n x 1 delay state, provided inputs and delay_states agree",
         "order inside outputs and delay_states is not demanded; order inside the variable groups is (in place, row-major: "
-        "test_array_3d, test_array_expand, test_expand_vectors_derivative_naming and the positional numeric comparisons pin it)",
-        "python_type of the scalars, 3-D+ arrays (unexpanded backend rejects them) and the other simplification options are not covered",
+        "test_array_3d, test_array_expand, test_expand_vectors_derivative_naming and the positional numeric comparisons pin it), "
+        "except under another simplification switch with expand_mx, where that switch moves the already expanded scalars in "
+        "equation order",
+        "another simplification switch is only applied to programs on which it acts on whole arrays: on element equations "
+        "(for-loops, slices) alias detection / elimination legitimately finds more after an early expansion than before",
+        "an output whose variable the other options removed from the model (alias, eliminated, replaced constant) names nothing "
+        "in either model: not judged",
+        "python_type of the scalars, 3-D+ arrays (unexpanded backend rejects them), factor_and_simplify_equations and "
+        "reduce_affine_expression (they rewrite the residual itself) and combinations of three or more switches are not covered",
     ]
 
 
 def replay(case):
     spec = case["spec"]
-    r = evaluate(spec, 0, 2)
+    r = evaluate(spec, 0, 2, tuple(case.get("ctx", ())))
     print(r["text"])
+    if case.get("ctx"):
+        print("options: " + ", ".join(case["ctx"]))
     hits = [(c, mx, d) for c, mx, d in r["clauses"] if c == case.get("clause", c)]
     for c, mx, d in hits:
         print("%s (expand_mx=%s): %s" % (c, mx, d))
